@@ -6,6 +6,7 @@ Proof/Dsv.lean (chunk loops).  All statements are over the *generated* kernels
 `Gen.ODDS_MASK`) and the hand-written loop models of Model/Dsv.lean.
 -/
 import SuccinctlyVerif.Proof.Dsv
+import SuccinctlyVerif.Proof.Lane
 namespace SV.Props.C20
 open SV SV.Dsv
 
@@ -84,5 +85,40 @@ example : (0x2c#8 : Byte) ≠ 0x22#8 ∧ (0x22#8 : Byte) ≠ 0x0a#8 ∧ (0x2c#8 
 -- a quote at bit 63 opens a region: outside mask is all but bit 63, carry out is 1
 example : toggleBmi2 0#64 0x8000000000000000#64 = (0x7fffffffffffffff#64, 1#64) := by decide
 example : togglePrefix 1#64 0x8000000000000000#64 = (0x8000000000000000#64, 0#64) := by decide
+
+/-- The equality-mask lane DAGs of the three x86 engines (`process_chunk_64` of `avx2.rs` and
+`sse2.rs`, `process_chunk_64_bmi2`), regenerated from the source on this run (Generated/C20.lean),
+set a lane's movemask bit exactly when the byte equals the broadcast delimiter (`d`) resp. quote (`q`) resp. newline (`n`)
+byte — the `cmpeq` lane predicate of Model/Dsv.lean — for every lane byte and every compared byte. -/
+theorem lanes_generated_eq :
+    (∀ x d q n : Byte, Gen.dsv_avx2_delim_mask0 x d q n = (x == d)) ∧
+    (∀ x d q n : Byte, Gen.dsv_avx2_delim_mask1 x d q n = (x == d)) ∧
+    (∀ x d q n : Byte, Gen.dsv_avx2_quote_mask0 x d q n = (x == q)) ∧
+    (∀ x d q n : Byte, Gen.dsv_avx2_quote_mask1 x d q n = (x == q)) ∧
+    (∀ x d q n : Byte, Gen.dsv_avx2_nl_mask0 x d q n = (x == n)) ∧
+    (∀ x d q n : Byte, Gen.dsv_avx2_nl_mask1 x d q n = (x == n)) ∧
+    (∀ x d q n : Byte, Gen.dsv_sse2_delim_mask0 x d q n = (x == d)) ∧
+    (∀ x d q n : Byte, Gen.dsv_sse2_delim_mask1 x d q n = (x == d)) ∧
+    (∀ x d q n : Byte, Gen.dsv_sse2_delim_mask2 x d q n = (x == d)) ∧
+    (∀ x d q n : Byte, Gen.dsv_sse2_delim_mask3 x d q n = (x == d)) ∧
+    (∀ x d q n : Byte, Gen.dsv_sse2_quote_mask0 x d q n = (x == q)) ∧
+    (∀ x d q n : Byte, Gen.dsv_sse2_quote_mask1 x d q n = (x == q)) ∧
+    (∀ x d q n : Byte, Gen.dsv_sse2_quote_mask2 x d q n = (x == q)) ∧
+    (∀ x d q n : Byte, Gen.dsv_sse2_quote_mask3 x d q n = (x == q)) ∧
+    (∀ x d q n : Byte, Gen.dsv_sse2_nl_mask0 x d q n = (x == n)) ∧
+    (∀ x d q n : Byte, Gen.dsv_sse2_nl_mask1 x d q n = (x == n)) ∧
+    (∀ x d q n : Byte, Gen.dsv_sse2_nl_mask2 x d q n = (x == n)) ∧
+    (∀ x d q n : Byte, Gen.dsv_sse2_nl_mask3 x d q n = (x == n)) ∧
+    (∀ x d q n : Byte, Gen.dsv_bmi2_delim_mask0 x d q n = (x == d)) ∧
+    (∀ x d q n : Byte, Gen.dsv_bmi2_delim_mask1 x d q n = (x == d)) ∧
+    (∀ x d q n : Byte, Gen.dsv_bmi2_quote_mask0 x d q n = (x == q)) ∧
+    (∀ x d q n : Byte, Gen.dsv_bmi2_quote_mask1 x d q n = (x == q)) ∧
+    (∀ x d q n : Byte, Gen.dsv_bmi2_nl_mask0 x d q n = (x == n)) ∧
+    (∀ x d q n : Byte, Gen.dsv_bmi2_nl_mask1 x d q n = (x == n)) := by
+  repeat' constructor
+  all_goals (intro x d q n; exact SV.Lane.cmpeq_msb x _)
+
+example : Gen.dsv_sse2_quote_mask3 0x22#8 0x2c#8 0x22#8 0x0a#8 = true ∧
+    Gen.dsv_sse2_quote_mask3 0xa2#8 0x2c#8 0x22#8 0x0a#8 = false := by decide
 
 end SV.Props.C20
